@@ -221,3 +221,37 @@ func UInstances(array bool) []any {
 	}
 	return out
 }
+
+// ULongInstances adds size-stressed members to the exhaustive pool: arrays and objects whose length sits on
+// the sizes at which set representations change (machine words), built over the same tiny pools.
+func ULongInstances(r *rand.Rand, array bool, n int) []any {
+	var out []any
+	for ; n > 0; n-- {
+		size := Pick(r, LongSizes)
+		if array {
+			a := make([]any, size)
+			bias := r.IntN(3) // mostly one kind with a few of the other, or an even mix
+			for i := range a {
+				switch {
+				case bias == 2 || r.IntN(6) == 0 || i == 63 || i == 64 || i == size-1:
+					a[i] = Pick(r, UItems)
+				default:
+					a[i] = UItems[bias]
+				}
+			}
+			out = append(out, a)
+			continue
+		}
+		m := map[string]any{}
+		for _, name := range UNames {
+			if k := r.IntN(len(UItems) + 1); k > 0 {
+				m[name] = UItems[k-1]
+			}
+		}
+		for i := 0; len(m) < size; i++ {
+			m[fmt.Sprintf("k%d", i)] = Pick(r, UItems)
+		}
+		out = append(out, m)
+	}
+	return out
+}
